@@ -1,5 +1,46 @@
 package main
 
+import (
+	"sync"
+
+	"github.com/nulab/autog/internal/phase1"
+	"github.com/nulab/autog/internal/phase2"
+)
+
 // reseed makes the time-seeded RNG of the non-deterministic greedy cycle
 // breaker replayable (hook H2, build tag verif).
-func reseed(seed int64) {}
+func reseed(seed int64) {
+	s := seed
+	phase1.VerifSeed = &s
+}
+
+// nsExit collects the network-simplex exit reports of the layering phase (hook H3).
+type nsReport struct {
+	pivots int
+	capped bool // ended on the iteration budget with a negative cut value left
+	stuck  bool // ended because no entering edge was found although a negative cut value was left
+}
+
+var (
+	nsMu      sync.Mutex
+	nsReports []nsReport
+)
+
+func installHooks() {
+	phase2.VerifNSExit = func(balance, pivots, maxitr int, negativeLeft bool) {
+		if balance != 1 {
+			return // the positioner's run on the auxiliary graph
+		}
+		nsMu.Lock()
+		nsReports = append(nsReports, nsReport{pivots: pivots, capped: negativeLeft && pivots >= maxitr, stuck: negativeLeft && pivots < maxitr})
+		nsMu.Unlock()
+	}
+}
+
+func takeNSReports() []nsReport {
+	nsMu.Lock()
+	r := nsReports
+	nsReports = nil
+	nsMu.Unlock()
+	return r
+}
